@@ -2372,6 +2372,42 @@ def _partial_methods(tree):
     return count
 
 
+def _bound_method_aliases(tree):
+    """`f = x.y.m` bound once in a function (x a name that is not re-bound there, f used only as the callee of calls): the
+    calls `f(..)` are `x.y.m(..)`"""
+    count = 0
+    for fn in [n for n in ast.walk(tree) if isinstance(n, (ast.FunctionDef, ast.AsyncFunctionDef))]:
+        stores, loads = {}, {}
+        for n in ast.walk(fn):
+            if isinstance(n, ast.Name):
+                (stores if isinstance(n.ctx, (ast.Store, ast.Del)) else loads).setdefault(n.id, []).append(n)
+        params = {a.arg for a in fn.args.args + fn.args.kwonlyargs + fn.args.posonlyargs}
+        for i, st in enumerate(list(fn.body)):
+            if not (isinstance(st, ast.Assign) and len(st.targets) == 1 and isinstance(st.targets[0], ast.Name) and isinstance(st.value, ast.Attribute) and _simple(st.value)):
+                continue
+            name = st.targets[0].id
+            root = st.value
+            while isinstance(root, ast.Attribute):
+                root = root.value
+            if not isinstance(root, ast.Name) or len(stores.get(name, [])) != 1 or name in params or stores.get(root.id) and root.id not in params or (root.id in params and stores.get(root.id)):
+                continue
+            calls = [n for n in ast.walk(fn) if isinstance(n, ast.Call) and isinstance(n.func, ast.Name) and n.func.id == name]
+            if not calls or len(calls) != len(loads.get(name, [])):
+                continue
+            # nothing between the binding and the calls may assign the attribute itself (x.y.m = ..): rare; checked coarsely
+            if any(isinstance(n, ast.Attribute) and isinstance(n.ctx, (ast.Store, ast.Del)) and n.attr == st.value.attr for n in ast.walk(fn)):
+                continue
+            for c in calls:
+                c.func = ast.copy_location(copy.deepcopy(st.value), c.func)
+            fn.body.remove(st)
+            if not fn.body:
+                fn.body = [ast.Pass()]
+            count += 1
+    if count:
+        ast.fix_missing_locations(tree)
+    return count
+
+
 def _single_dispatch(tree):
     """A module-level `functools.singledispatch` function with its registrations (`@f.register(T)` — also stacked —,
     `@f.register` with an annotated first parameter, `f.register(T, impl)`, `f.register(T)(impl)`) is the type switch
@@ -2546,6 +2582,7 @@ def normalise(tree):
     _specialise_template_methods(tree)
     _apply_chosen_callable(tree)
     _attrgetters(tree)
+    _bound_method_aliases(tree)
     _iter_protocol(tree)
     _closure_factories(tree)
     _collect_records(tree)
